@@ -4,7 +4,11 @@
 
     Images are shipped run-length / pattern encoded ([list piece]) and expanded inside Coq;
     digests are compared through their preimage: the harness looks for the byte string whose
-    Go-crypto hash equals the digest the code returned and ships (length, dlist) of it. *)
+    Go-crypto hash equals the digest the code returned and ships (length, dlist) of it.
+
+    [CSeq]: a sequence of calls on ONE BootGuard object (the harness also re-uses one image
+    buffer and one file for all of them); the model's object ([bg_state]) is threaded through
+    the steps and compared with the real object after every step. *)
 From CSS Require Import Lib.Base Lib.Cases Model.IBB.
 
 Inductive piece : Type :=
